@@ -316,6 +316,98 @@ theorem flipOK_of_filter (lat : Lattice) (faces : Loc → Option (List Loc)) (lo
   rw [List.mem_filter, ← h s hs]
   simp [Lattice.isStab, hs]
 
+/-! ### the same reductions for the rotated decoder (face rows = rows of type `'face'`) -/
+
+theorem xorSum_filter {α : Type} (l : List α) (p f : α → Bool) :
+    xorSum (l.filter p) f = xorSum l (fun a => p a && f a) := by
+  induction l with
+  | nil => rfl
+  | cons a l ih =>
+    rw [List.filter_cons]
+    cases hp : p a
+    · simp [ih, hp]
+    · simp [ih, hp]
+
+/-- a generator of type `'vertex'` is never toggled -/
+theorem faceHasRot_of_not_face (lat : Lattice) (s loc : Loc) (h : lat.isFace s = false) :
+    faceHasRot lat s loc = false := by
+  simp [faceHasRot, faceHasK, h]
+
+/-- a generator of type `'face'` whose dict has distinct keys: it is toggled by `loc` iff its
+    dict has an X (or Y) on `loc` — also when other entries are Z (defect lines) -/
+theorem faceHasRot_of_keys (lat : Lattice) (s loc : Loc) (hf : lat.isFace s = true)
+    (hnd : ((lat.stabOp s).map Prod.fst).Nodup) :
+    faceHasRot lat s loc = decide (loc ∈ ((lat.stabOp s).filter fun e => hasX e.2).map Prod.fst) := by
+  unfold faceHasRot faceHasK
+  rw [hf, Bool.true_and]
+  have h1 : xorSum (lat.stabOp s) (fun e => hasX e.2 && e.1 == loc) =
+      xorSum ((lat.stabOp s).filter fun e => hasX e.2) (fun e => hasX e.2 && e.1 == loc) := by
+    rw [xorSum_filter]
+    apply xorSum_congr
+    intro e _
+    cases hasX e.2 <;> rfl
+  rw [h1, xorSum_keys_nodup _ (nodup_keys_filter _ _ hnd) (fun e he => (List.mem_filter.mp he).2)]
+
+/-- a generator of type `'face'` whose dict is the qubit-filtered part of a candidate list with
+    distinct locations (letters X or Z): it is toggled by the qubit `loc` iff a candidate sits on
+    `loc` with the letter X -/
+theorem faceHasRot_of_filter (lat : Lattice) (s loc : Loc) (cands : Op) (hf : lat.isFace s = true)
+    (hop : lat.stabOp s = cands.filter (fun c => lat.qubits.contains c.1))
+    (hnd : (cands.map Prod.fst).Nodup) (hq : loc ∈ lat.qubits) :
+    faceHasRot lat s loc = decide (∃ e ∈ cands, e.1 = loc ∧ hasX e.2 = true) := by
+  rw [faceHasRot_of_keys lat s loc hf (by rw [hop]; exact nodup_keys_filter _ cands hnd), hop]
+  apply decide_eq_decide.mpr
+  simp only [List.mem_map, List.mem_filter, List.contains_iff_mem]
+  constructor
+  · rintro ⟨e, ⟨⟨he, _⟩, hx⟩, rfl⟩
+    exact ⟨e, he, rfl, hx⟩
+  · rintro ⟨e, he, rfl, hx⟩
+    exact ⟨e, ⟨⟨he, hq⟩, hx⟩, rfl⟩
+
+/-- the same when every candidate letter is X -/
+theorem faceHasRot_of_X_filter (lat : Lattice) (s loc : Loc) (cands : Op) (hf : lat.isFace s = true)
+    (hop : lat.stabOp s = cands.filter (fun c => lat.qubits.contains c.1))
+    (hnd : (cands.map Prod.fst).Nodup) (hx : ∀ e ∈ cands, e.2 = Pauli.X) (hq : loc ∈ lat.qubits) :
+    faceHasRot lat s loc = decide (loc ∈ cands.map Prod.fst) := by
+  rw [faceHasRot_of_filter lat s loc cands hf hop hnd hq]
+  apply decide_eq_decide.mpr
+  simp only [List.mem_map]
+  constructor
+  · rintro ⟨e, he, rfl, _⟩
+    exact ⟨e, he, rfl⟩
+  · rintro ⟨e, he, rfl⟩
+    exact ⟨e, he, rfl, by rw [hx e he]; rfl⟩
+
+/-- reduction of `flipOKRot` to a membership statement -/
+theorem flipOKRot_of (lat : Lattice) (faces : Loc → Option (List Loc)) (loc : Loc) (fl : List Loc)
+    (hf : faces loc = some fl) (hnd : fl.Nodup)
+    (h : ∀ s ∈ lat.stabs, (s ∈ fl ↔ faceHasRot lat s loc = true)) :
+    flipOKRot lat faces loc = true := by
+  unfold flipOKRot flipOKK
+  simp only [hf, List.all_eq_true, beq_iff_eq]
+  intro s hs
+  rw [oddCount_nodup fl hnd]
+  have := h s hs
+  change _ = faceHasRot lat s loc
+  cases hfh : faceHasRot lat s loc
+  · rw [hfh] at this
+    simp at this
+    simp [this]
+  · rw [hfh] at this
+    simp at this
+    simp [this]
+
+/-- reduction of `flipOKRot` when the face list keeps an arbitrary filter
+    (`is_stabilizer(·, 'face')`) and the unfiltered neighbour list is duplicate-free -/
+theorem flipOKRot_of_filterP (lat : Lattice) (faces : Loc → Option (List Loc)) (loc : Loc)
+    (raw : List Loc) (p : Loc → Bool) (hf : faces loc = some (raw.filter p)) (hnd : raw.Nodup)
+    (h : ∀ s ∈ lat.stabs, ((s ∈ raw ∧ p s = true) ↔ faceHasRot lat s loc = true)) :
+    flipOKRot lat faces loc = true := by
+  apply flipOKRot_of lat faces loc _ hf (hnd.filter _)
+  intro s hs
+  rw [List.mem_filter]
+  exact h s hs
+
 /-! ### wrap-around arithmetic -/
 
 theorem emod_in (a P : Int) (h0 : 0 ≤ a) (h1 : a < P) : a % P = a := Int.emod_eq_of_lt h0 h1
